@@ -24,7 +24,7 @@ func init() {
 	register(&Property{
 		ID:      "C09",
 		NeedSSA: true,
-		Decided: "Only the clause `equally when the merged row group is written to a file` is decided, structurally: (marker) mergedRowGroup and sortedSegmentRowGroup, dedup and converted wrappers do not carry the chunk-transparency marker, so the writer reads them through Rows(); mergedRowGroup declares its own segment accessor returning nil although it embeds a type that opts in; sortedSegmentRowGroup returns no segments on the duplicate-dropping path (the return of its segments is dominated by the test of dropDuplicatedRows); (bounds) the function that computes the key range of a sorted row group takes the direction of each sorting column from that column, not from a fixed one; (errors) the merge readers propagate read errors of their inputs (shared with C14.errflow). (bounds, cont.) the key range of a sorted row group consults the null counts of the column index and NullsFirst() of the sorting column. (nullcount) every count over definition levels (countLevelsEqual / countLevelsNotEqual on a value read from a field or parameter named after definition levels) compares with a maximum definition level, never with a constant. (wraporder) the argument of CompareDescending never derives from CompareNullsFirst / CompareNullsLast: the null placement is applied outside the reversal.",
+		Decided: "Only the clause `equally when the merged row group is written to a file` is decided, structurally: (marker) mergedRowGroup and sortedSegmentRowGroup, dedup and converted wrappers do not carry the chunk-transparency marker, so the writer reads them through Rows(); mergedRowGroup declares its own segment accessor returning nil although it embeds a type that opts in; sortedSegmentRowGroup returns no segments on the duplicate-dropping path (the return of its segments is dominated by the test of dropDuplicatedRows); (bounds) the function that computes the key range of a sorted row group takes the direction of each sorting column from that column, not from a fixed one; (errors) the merge readers propagate read errors of their inputs (shared with C14.errflow). (bounds, cont.) the key range of a sorted row group consults the null counts of the column index and NullsFirst() of the sorting column. (nullcount) every count over definition levels (countLevelsEqual / countLevelsNotEqual on a value read from a field or parameter named after definition levels) compares with a maximum definition level, never with a constant. (wraporder) the argument of CompareDescending never derives from CompareNullsFirst / CompareNullsLast: the null placement is applied outside the reversal. (cutnulls) a function that turns the bounds of a column index into row positions (MinValue/MaxValue together with FirstRowIndex) also consults NullCount.",
 		NotDecided: "sortedness, multiset equality, stability and deduplication of the merged sequence: the loser tree, run detection, range refinement and the page-boundary cut are value-dependent (a cut comparison that is `>=` instead of `>` is not visible structurally).",
 		Assumptions: []string{"method sets are computed by go/types, promotion included"},
 		Run:         runC09,
@@ -404,6 +404,51 @@ func runC09(c *Ctx) {
 		c.Check(rule, "key range of a sorted row group reaches its null rows", fn.Pos(), nullInfo && nullSide, "the key range is read from page bounds alone, which ignore nulls, without consulting the null counts of the column index and the NullsFirst() of the sorting column: row groups with disjoint value ranges that hold nulls are concatenated and the nulls of each end up in the middle of the output")
 	}
 	c.Min(rule, 3)
+	// page bounds ignore nulls: whoever turns the bounds of a column index into
+	// row positions (bounds together with the first row of a page) looks at the
+	// null counts of the index as well
+	{
+		rule := "C09.cutnulls"
+		n := 0
+		for _, fn := range p.ModuleSSAFuncs() {
+			if fn.Origin() != nil || fn.Blocks == nil || fn.Parent() != nil || fnPkgPath(fn) != modPath {
+				continue
+			}
+			bounds, rowsOf, nulls := false, false, false
+			seen := map[string]bool{}
+			allInstrs(fn, true, func(_ *ssa.Function, ins ssa.Instruction) {
+				// calls and bound method values (earliest := ci.MinValue)
+				switch x := ins.(type) {
+				case ssa.CallInstruction:
+					seen[calleeName(x)] = true
+				case *ssa.MakeClosure:
+					if f, ok := x.Fn.(*ssa.Function); ok {
+						seen[strings.TrimSuffix(f.Name(), "$bound")+"$bound"] = true
+					}
+				}
+			})
+			for k := range seen {
+				switch {
+				case strings.Contains(k, "MinValue") || strings.Contains(k, "MaxValue"):
+					if strings.Contains(k, "ColumnIndex") || strings.HasSuffix(k, "$bound") {
+						bounds = true
+					}
+				}
+				if strings.Contains(k, "FirstRowIndex") {
+					rowsOf = true
+				}
+				if strings.Contains(k, "NullCount") {
+					nulls = true
+				}
+			}
+			if !bounds || !rowsOf {
+				continue
+			}
+			n++
+			c.Check(rule, FuncKey(fn)+" looks at the null counts of the pages it cuts at", fn.Pos(), nulls, FuncKey(fn)+" turns the bounds of a column index into row positions without consulting NullCount: the bounds of a page ignore its nulls, so rows with null keys end up on the wrong side of a cut and the merge is not sorted")
+		}
+		c.Min(rule, 1)
+	}
 	// merge readers propagate read errors
 	io := NewIOErrs(p)
 	runErrRule(c, "C09.errors",
